@@ -1,9 +1,11 @@
 """Injected into `phyclone run` subprocesses by the C18 check (PYTHONPATH) when PHYCLONE_VERIF=1:
-delays the start of selected chains (PCV_CHAIN_DELAYS="0:3.5,1:0") so that worker completion order changes.
+delays the start of selected chains (PCV_CHAIN_DELAYS="0:3.5,1:0") so that worker completion order changes, records
+which process executes which chain (PCV_CHAIN_PIDS=<dir>), and delays the start-up of all pool workers but the first
+(PCV_WORKER_START_DELAY=<dir>:<seconds>) so that one worker process executes several chains.
 Add-only: nothing under /repo is modified; without the guard variable this file does nothing."""
 import os
 
-if os.environ.get("PHYCLONE_VERIF") == "1" and os.environ.get("PCV_CHAIN_DELAYS"):
+if os.environ.get("PHYCLONE_VERIF") == "1" and (os.environ.get("PCV_CHAIN_DELAYS") or os.environ.get("PCV_CHAIN_PIDS")):
     try:
         import functools
         import time
@@ -11,14 +13,21 @@ if os.environ.get("PHYCLONE_VERIF") == "1" and os.environ.get("PCV_CHAIN_DELAYS"
         import phyclone.run as _prun
 
         _delays = {}
-        for _part in os.environ["PCV_CHAIN_DELAYS"].split(","):
-            _k, _v = _part.split(":")
-            _delays[int(_k)] = float(_v)
+        for _part in (os.environ.get("PCV_CHAIN_DELAYS") or "").split(","):
+            if _part:
+                _k, _v = _part.split(":")
+                _delays[int(_k)] = float(_v)
         _orig = _prun.run_phyclone_chain
 
         @functools.wraps(_orig)
         def run_phyclone_chain(*args, **kwargs):
             chain_num = args[16] if len(args) > 16 else kwargs.get("chain_num", 0)
+            if os.environ.get("PCV_CHAIN_PIDS"):
+                # which process executes which chain (PCV_CHAIN_PIDS=<dir>): one marker file per chain
+                try:
+                    open(os.path.join(os.environ["PCV_CHAIN_PIDS"], "chain_%d_pid_%d" % (int(chain_num), os.getpid())), "w").close()
+                except OSError:
+                    pass
             d = _delays.get(int(chain_num), 0.0)
             if d > 0:
                 time.sleep(d)
@@ -28,3 +37,25 @@ if os.environ.get("PHYCLONE_VERIF") == "1" and os.environ.get("PCV_CHAIN_DELAYS"
     except Exception as _ex:  # never break the run
         import sys
         print("pcv sitecustomize: could not install chain delays: %r" % (_ex,), file=sys.stderr)
+
+# Worker start delays (PCV_WORKER_START_DELAY="<ticket dir>:<seconds>"): every spawned pool worker takes a ticket at
+# interpreter start; all but the first sleep before they begin to serve tasks, so that the first worker process executes
+# several chains one after the other - a schedule the pool permits whenever a worker is slow to come up.
+if os.environ.get("PHYCLONE_VERIF") == "1" and os.environ.get("PCV_WORKER_START_DELAY"):
+    try:
+        import sys as _sys
+        if "--multiprocessing-fork" in _sys.argv:
+            import time as _time
+            _dir, _secs = os.environ["PCV_WORKER_START_DELAY"].rsplit(":", 1)
+            _k = 0
+            while True:
+                try:
+                    os.close(os.open(os.path.join(_dir, "worker_%d" % _k), os.O_CREAT | os.O_EXCL | os.O_WRONLY))
+                    break
+                except FileExistsError:
+                    _k += 1
+            if _k > 0:
+                _time.sleep(float(_secs))
+    except Exception as _ex:  # never break the run
+        import sys
+        print("pcv sitecustomize: could not install worker start delays: %r" % (_ex,), file=sys.stderr)
